@@ -84,7 +84,10 @@ Inductive tstate :=
 | TAwaitComp (c : nat)           (* release() wrote PUBREL, awaiting PUBCOMP *)
 | TReadyW (c : nat)              (* MqttSink::ready() awaiting c *)
 | TDone (status : N)
-| TDropped.
+| TDropped
+(* only reachable through the operation "create without polling" (OCreate) *)
+| TNew                           (* the future of an `async fn` (subscribe/unsubscribe send) was created, never polled *)
+| TDeferred (status : N).        (* the future was created; its first poll returns this result *)
 
 (* pending StreamingPayload::send future *)
 Inductive spend :=
@@ -461,6 +464,17 @@ Definition window_then_proceed (s : sink) (x : task) : sink * tstate :=
   | (s1, None) => proceed s1 x
   end.
 
+(* stream_at_least_once panicked in the call itself (next_id overflow before anything was written): the
+   StreamingPayload it was about to return is dropped during the unwinding, the caller never gets one *)
+Definition no_stream_on_panic (x : task) (st : tstate) : task :=
+  match st, tstream x with
+  | TDone e, Some sm =>
+    if e =? ST_PANIC then mkTask (tk x) (tid x) (tsize x) (tst x) (ttx x)
+                                 (Some (mkStream (sg sm) false (inproc sm) false SNone ST_DROPPED))
+    else x
+  | _, _ => x
+  end.
+
 (* operation 1: call the API and poll the returned future once *)
 Definition start_task (s : sink) (t k idq size : N) : sink :=
   match find_task t (tasks s) with
@@ -489,7 +503,7 @@ Definition start_task (s : sink) (t k idq size : N) : sink :=
         else
           let '(s1, st) := window_then_proceed s0 x in
           (match st with TParked _ => s1 | TDone _ => drop_sig s1 x | _ => s1 end, st) in
-      set_tasks s1 (put_task t (with_tst x st) (tasks s1))
+      set_tasks s1 (put_task t (with_tst (no_stream_on_panic x st) st) (tasks s1))
   end.
 
 (* operation 2: poll the task's future once *)
@@ -527,6 +541,12 @@ Definition poll_task (s : sink) (t : N) : sink :=
         | PCanceled => (s, TDone ST_DISCONNECTED)
         | PVal _ => (s, TDone ST_OK)
         end
+      | TNew =>
+        (* first poll of SubscribeBuilder::send / UnsubscribeBuilder::send: everything happens now *)
+        if is_closed s then (drop_sig s x, TDone ST_DISCONNECTED)
+        else let '(s1, st) := window_then_proceed s x in
+             (match st with TDone _ => drop_sig s1 x | _ => s1 end, st)
+      | TDeferred e => (s, TDone e)
       | st => (s, st)
       end in
     set_tasks s1 (put_task t (with_tst x st) (tasks s1))
@@ -541,8 +561,53 @@ Definition drop_task (s : sink) (t : N) : sink :=
     | TParked c => let s1 := drop_sig (drop_rx s c) x in set_tasks s1 (put_task t (with_tst x TDropped) (tasks s1))
     | TAwaitAck c _ | TAwaitComp c | TReadyW c =>
       let s1 := drop_rx s c in set_tasks s1 (put_task t (with_tst x TDropped) (tasks s1))
+    | TNew | TDeferred _ => set_tasks s (put_task t (with_tst x TDropped) (tasks s))
     | _ => s
     end
+  end.
+
+(* operation 16: call the API for task t, do NOT poll the returned future.
+     kinds 1, 2, 7 (send_at_least_once / send_exactly_once / stream_at_least_once are plain fns and so are their
+       *_inner helpers): the closed check, wait_readiness and -- when not parked -- packet id, write and
+       registration all happen in the call; an error of that synchronous part is returned by the first poll;
+       a panic in the call (next_id overflow) leaves no future;
+     kind 5 (MqttSink::ready): closed check and wait_readiness in the call;
+     kinds 3, 4 (`async fn send`): nothing happens before the first poll;
+     kind 6 (send_at_most_once) is synchronous.
+   For a fresh task number [start_task s t k id size = poll_task (create_task s t k id size) t]. *)
+Definition defer (st : tstate) : tstate :=
+  match st with
+  | TDone e => if e =? ST_PANIC then TDone e else TDeferred e
+  | st => st
+  end.
+
+Definition create_task (s : sink) (t k idq size : N) : sink :=
+  match find_task t (tasks s) with
+  | Some _ => s
+  | None =>
+    if (k =? 0) || (7 <? k) then s
+    else if k =? 6 then start_task s t k idq size
+    else if k =? 5 then
+      let '(s1, st) :=
+        if is_closed s then (s, TDeferred ST_DISCONNECTED)
+        else match wait_readiness s with
+             | (s1, Some c) => (s1, TReadyW c)
+             | (s1, None) => (s1, TDeferred ST_OK)
+             end in
+      set_tasks s1 (put_task t (mkTask k 0 0 st false None) (tasks s1))
+    else if (k =? 3) || (k =? 4) then
+      set_tasks s (put_task t (mkTask k idq 0 TNew false None) (tasks s))
+    else
+      let '(s0, x) :=
+        if k =? 7 then let '(s0, c) := new_chan s in
+                       (s0, mkTask k idq size TDropped true (Some (mkStream c true false true SNone 0)))
+        else (s, mkTask k idq 0 TDropped false None) in
+      let '(s1, st) :=
+        if is_closed s0 then (drop_sig s0 x, TDone ST_DISCONNECTED)
+        else
+          let '(s1, st) := window_then_proceed s0 x in
+          (match st with TParked _ => s1 | TDone _ => drop_sig s1 x | _ => s1 end, st) in
+      set_tasks s1 (put_task t (with_tst (no_stream_on_panic x st) (defer st)) (tasks s1))
   end.
 
 (* operation 6: PublishReceived::release(), polled once *)
@@ -698,7 +763,8 @@ Inductive op :=
 | OChunk (t n : N)              (* StreamingPayload::send(n bytes) polled once / resume the pending one *)
 | ODropStream (t : N)           (* drop the StreamingPayload *)
 | ODropChunk (t : N)            (* drop the pending StreamingPayload::send future *)
-| ONop.
+| ONop
+| OCreate (t k id size : N).    (* call the API for task t WITHOUT polling the returned future; OStart = OCreate; OPoll *)
 
 Definition sink_step (s : sink) (o : op) : sink :=
   match o with
@@ -717,6 +783,7 @@ Definition sink_step (s : sink) (o : op) : sink :=
   | ODropStream t => drop_stream s t
   | ODropChunk t => drop_chunk s t
   | ONop => s
+  | OCreate t k id size => create_task s t k id size
   end.
 
 (* numeric form of the operations (see harness/src/engines/sink.rs) *)
@@ -745,6 +812,8 @@ Definition parse_op (f : list N) : op :=
   | [13; t] => OChunk t 0
   | 14 :: t :: _ => ODropStream t
   | 15 :: t :: _ => ODropChunk t
+  | 16 :: t :: k :: id :: rest => OCreate t k (U16 id) (match rest with sz :: _ => sz | [] => 0 end)
+  | [16; t; k] => OCreate t k 0 0
   | _ => ONop
   end.
 
@@ -753,7 +822,7 @@ Definition settle (s : sink) : sink := if io s =? 1 then set_io s 2 else s.
 
 Definition status_of (st : tstate) : N :=
   match st with
-  | TParked _ | TAwaitAck _ _ | TAwaitComp _ | TReadyW _ => ST_PENDING
+  | TParked _ | TAwaitAck _ _ | TAwaitComp _ | TReadyW _ | TNew | TDeferred _ => ST_PENDING
   | TReceipt _ => ST_OK
   | TDone c => c
   | TDropped => ST_DROPPED
